@@ -60,7 +60,7 @@ static void body(int t){
 				vs_note("forkq %d flags %lu : %s",k,crds[k]->flags,buf); }
 			{ /* what fork() would copy of the reader registry: the lock must be free and no helper registered */
 			  int foreign=0; struct urcu_reader *rr; cds_list_for_each_entry(rr,&registry,node){ int mine=0; for(int k=0;k<MAXTH;k++) if(scen_reader[k]==(void*)rr) mine=1; if(!mine) foreign++; }
-			  vs_note("forkreg owner %d foreign %d", vs_mutex_owner(&rcu_registry_lock), foreign); }
+			  vs_note("forkreg owner %d foreign %d napp %d", vs_mutex_owner(&rcu_registry_lock), foreign, nprog); }
 			vs_quiet_end(); vs_note("forkpoint");
 			vs_call("afterfork",0); call_rcu_after_fork_parent(); vs_ret("afterfork",0); break; }
 		case 'B': vs_call("barrier",0); rcu_barrier(); vs_ret("barrier",0); break;
